@@ -59,7 +59,8 @@ theorem firstEq (st : Static) (d : Defs) : ∀ fuel, FirstEq st d fuel := by
       have h3 : (RCtx.setFirst c b).canGuess = c.canGuess := rfl
       have h4 : (RCtx.setFirst c b).symCtx = c.symCtx := rfl
       have h5 : (RCtx.setFirst c b).bank = c.bank := rfl
-      simp only [h2, h3, h4, h5, ih.aiter]
+      have h6 : (RCtx.setFirst c b).last = c.last := rfl
+      simp only [h2, h3, h4, h5, h6, ih.aiter]
     · intro c b; funext ns e l cu r u
       cases ns with
       | nil => simp only [asmOnce]
